@@ -5,6 +5,7 @@ import (
 	stdjson "encoding/json"
 	"fmt"
 	"math/rand"
+	"os"
 	"runtime"
 	"runtime/debug"
 	"strings"
@@ -303,6 +304,25 @@ func c04Run(c *fw.Ctx, b fw.Batch) {
 		for _, p := range preds {
 			if len(p.In) < 200000 {
 				ins = append(ins, p.In)
+			}
+		}
+		if b.Idx == 0 {
+			// files whose reported size differs from their content (procfs): the answer is a
+			// function of the bytes, not of what stat says
+			for _, pf := range []string{"/proc/version", "/proc/filesystems", "/proc/cmdline", "/proc/self/comm"} {
+				content, err := os.ReadFile(pf)
+				if err != nil || len(content) == 0 {
+					continue
+				}
+				for _, lim := range []uint32{0, 16, 3072} {
+					want := leafOf(lib.Detect(content, lim))
+					mimetype.SetLimit(lim)
+					m, derr := mimetype.DetectFile(pf)
+					c.Eval(1)
+					if derr != nil || leafOf(m) != want {
+						c.Violate("depends-on-more-than-the-bytes", fw.InputKey(content, lim, "DetectFile/"+pf), fmt.Sprintf("DetectFile(%s) gives %s (%v), the same %d bytes through Detect give %s (limit %d)", pf, leafOf(m), derr, len(content), want, lim), c04Payload{Kind: "procfs", Probe: c04Probe{Name: pf, In: content, Limit: lim, Want: want}})
+					}
+				}
 			}
 		}
 		lo, hi := split(len(ins), b.Idx, b.Of)
